@@ -22,6 +22,7 @@ def sh(cmd, cwd=None, timeout=5400, env=None):
 
 def main():
     prop, src, name = sys.argv[1], sys.argv[2], sys.argv[3]
+    phase = sys.argv[4] if len(sys.argv) > 4 else 'all'   # confirm | check | all
     dst = os.path.join('/verif/seeded', name)
     os.makedirs(dst, exist_ok=True)
     for f in ('patch.diff', 'demo.rs', 'notes.md'):
@@ -29,6 +30,17 @@ def main():
             shutil.copy(os.path.join(src, f), os.path.join(dst, f))
     patch = os.path.join(dst, 'patch.diff')
     meta = {'property': prop, 'name': name, 'ran': []}
+    if phase == 'check':
+        meta = json.load(open(os.path.join(dst, 'meta.json')))
+    if phase in ('confirm', 'all'):
+        confirm(meta, dst, patch)
+    if phase in ('check', 'all'):
+        run_check(meta, prop, patch)
+    json.dump(meta, open(os.path.join(dst, 'meta.json'), 'w'), indent=1)
+    det = meta.get('check', {})
+    print(json.dumps({'name': name, 'applies': meta.get('patch_applies'), 'ran': [(r['cmd'], r.get('passed', r.get('result', r.get('fails_as_expected')))) for r in meta['ran']], 'detected': det.get('violation_reported')}, indent=1))
+
+def confirm(meta, dst, patch):
     if not os.path.isdir(WT):
         sh('git -C /repo worktree add -f %s main --detach' % WT)
         shutil.copy('/repo/Cargo.lock', WT)
@@ -57,6 +69,8 @@ def main():
             fails = ('test result: FAILED' in out) or ('panicked' in out)
             meta['ran'].append({'cmd': 'cargo test --test vp_seed_demo (with the change)', 'fails_as_expected': fails, 's': dt, 'tail': out[-600:]})
     sh('git checkout -- . && git clean -fdq tests/', cwd=WT)
+
+def run_check(meta, prop, patch):
     # the check, against /repo itself
     rc, out, dt = sh('git -C /repo apply %s' % patch)
     det = {'applied_to_repo': rc == 0}
@@ -70,8 +84,6 @@ def main():
         finally:
             sh('git -C /repo checkout -- .')
     meta['check'] = det
-    json.dump(meta, open(os.path.join(dst, 'meta.json'), 'w'), indent=1)
-    print(json.dumps({'name': name, 'applies': meta['patch_applies'], 'ran': [(r['cmd'], r.get('passed', r.get('result', r.get('fails_as_expected')))) for r in meta['ran']], 'detected': det.get('violation_reported')}, indent=1))
 
 if __name__ == '__main__':
     main()
